@@ -19,7 +19,7 @@ import random
 
 import front
 
-LEAN_MODULE = "PydjinniModel.Props.C16Order"
+LEAN_MODULE = "PydjinniModel.Props.C16Program"
 THEOREMS = [
     "Pydjinni.Front.candidates_order",
     "Pydjinni.Front.findFile_first",
@@ -40,6 +40,16 @@ THEOREMS = [
     "Pydjinni.Front.front_registry_is_regUpTo",
     "Pydjinni.Front.front_finishes_all",
     "Pydjinni.Front.rootOrder_nodup",
+    "Pydjinni.Front.front_eq_programDiags",
+    "Pydjinni.Front.front_duplicate_raised",
+    "Pydjinni.Front.front_duplicate_position",
+    "Pydjinni.Front.programCollision_none_iff",
+    "Pydjinni.Front.front_missing_iff",
+    "Pydjinni.Front.front_circular_iff_line",
+    "Pydjinni.Front.front_cycle_iff",
+    "Pydjinni.Front.front_ok_iff",
+    "Pydjinni.Front.rootVisits_events",
+    "Pydjinni.Front.programKeys_rootEvents",
 ]
 LEVEL = "proof"
 
@@ -182,10 +192,20 @@ def run(ctx):
 
     results = front.run_many(ctx.tmp, todo, per_input_timeout=10)
     answers = ctx.driver.batch([{**req, "op": "c04.bindings"} for _, req in results])
+    # the declarative whole-program specification (Front/SpecProgram.lean `programDiags`, equal to the model by
+    # `front_eq_programDiags` whenever its decidable hypotheses hold) evaluated on the implementation's observation
+    import props.c05 as c05
+    progs = ctx.driver.batch([{**req, "op": "c11.prog", "impl": c05.impl_obs(impl)} for impl, req in results])
     breaks = []
-    for t, (impl, req), m in zip(todo, results, answers):
-        if "error" in m:
-            raise RuntimeError(f"driver error {m}")
+    for t, (impl, req), m, pg in zip(todo, results, answers, progs):
+        if "error" in m or "error" in pg:
+            raise RuntimeError(f"driver error {m} {pg}")
+        ctx.stat("programDiags_" + str(pg.get("verdict")))
+        if pg.get("verdict") not in ("holds", "not-applicable") and impl["kind"] not in ("crash", "hang"):
+            ctx.report("imports:" + pg["verdict"], "the diagnostics differ from the declarative whole-program specification (one diagnostic per missing file / cycle-closing "
+                       "line / bad extern, each file's rules against what is finished no later than itself)",
+                       {"input": {"files": t["files"], "root": t["root"], "include_dirs": t["include_dirs"]}, "meta": t["meta"], "impl": strip(impl),
+                        "programDiags": pg.get("spec"), "hypotheses": pg.get("hypotheses")})
         meta = t["meta"]
         ctx.count(key=json.dumps(meta, sort_keys=True), nontrivial=bool(meta.get("edges")) or meta["variant"] != "graph",
                   sample={"files": t["files"], "impl": impl["kind"]})
